@@ -1075,6 +1075,9 @@ def check(run, db, tier):
     run.frames_on_values = run.group(frame_value_rules, run, db)
     for fn in (vector_rules, frame_rules, normal_rules, rotation_rules, state_rules, indexspace_rules, closure_gradient_rules):
         run.group(fn, run, db)
+    run.forgive('axis_value_rules', ['normal_rules'])
+    run.forgive('frame_value_rules', ['frame_rules'])
+    run.forgive('sag_normal_value_rules', ['normal_rules'])
     # the slopes handed to the normal are the derivatives of the sag (shared with C09.rule)
     from .c02 import Proxy
     from . import c09
